@@ -32,6 +32,7 @@ type Interp struct {
 	globals     map[*ssa.Global]*Value
 	globalTrail []globalUndo
 	syncDepth   int // > 0 between Lock and Unlock and inside atomic operations (natives_sync.go)
+	syncMaps    map[*Value]*[]syncMapEntry
 	initDone    map[*ssa.Package]bool
 
 	ctx      *Ctx
